@@ -1306,3 +1306,70 @@ def boundary_flows(run, tmp, flow, tb, rng, thorough):
                                   "`%s`: the output differs from the library call with %s (%s)" % (
                                       cmdtxt, tagline, "shape %s vs %s" % (got.shape, want.shape) if got.shape != want.shape else "max difference %.3g" % float(np.nanmax(np.abs(got - want)))), case)
     os.chdir(tmp)
+
+
+# --------------------------------------------------------------------------
+# mixed runs: a conf-file tag that the option must supersede, observed through the files written
+# --------------------------------------------------------------------------
+
+MIXED = [
+    # (superseded file lines, option argv, name)
+    (["TDISP = .TRUE."], ["--mesh", "2", "2", "2", "-t", "--tmax", "100", "--tstep", "50"], "TDISP + -t"),
+    (["QPOINTS = 0 0 0"], ["--mesh", "2", "2", "2"], "QPOINTS + --mesh"),
+    (["BAND = 0 0 0 1/2 0 0", "BAND_POINTS = 3"], ["--mesh", "2", "2", "2"], "BAND + --mesh"),
+    (["MESH = 2 2 2"], ["--band", "0", "0", "0", "1/2", "0", "0", "--band-points", "3"], "MESH + --band"),
+    (["DOS_RANGE = 0 8 0.1"], ["--mesh", "2", "2", "2", "--dos", "--fpitch", "0.05"], "DOS_RANGE + --fpitch"),
+]
+
+
+def precedence_flows(run, tmp, flow):
+    """`phonopy <conf> -c POSCAR <options>` and `phonopy-load <yaml> --config <conf> <options>`: the set of output files
+    (and the frequency pitch of total_dos.dat) must be that of the same command with the superseded tag deleted from
+    the conf file — the documented rule that a command-line option supersedes the configuration-file tag"""
+    src = flow.dir
+    dimv = [str(x) for x in flow.dim]
+    fl = Flow(run, "mixed-" + flow.name, flow.dim, tmp)
+    fl.cell = flow.cell
+
+    def one(variant, lines, argv):
+        d = os.path.join(fl.dir, "case")
+        shutil.rmtree(d, ignore_errors=True)
+        os.makedirs(d)
+        for f in ("POSCAR", "FORCE_SETS", "phonopy_params.yaml"):
+            shutil.copy(os.path.join(src, f), os.path.join(d, f))
+        os.chdir(d)
+        before = set(os.listdir("."))
+        if variant == "phonopy":
+            U.write_conf("m.conf", ["DIM = " + " ".join(dimv)] + lines)
+            full = ["m.conf", "-c", "POSCAR"] + argv
+        else:
+            U.write_conf("m.conf", lines or ["# empty"])
+            full = ["phonopy_params.yaml", "--fc-calc", "traditional", "--config", "m.conf"] + argv
+        code, out, exc = run_main(variant, full)
+        files = sorted(f for f in set(os.listdir(".")) - before if f in OUTPUTS)
+        pitch = None
+        if "total_dos.dat" in files:
+            t = _dat("total_dos.dat")
+            pitch = round(float(t[1, 0] - t[0, 0]), 6) if len(t) > 1 else None
+        return code, exc, files, pitch, full
+
+    for lines, argv, name in MIXED:
+        for variant in ("phonopy", "load"):
+            m = one(variant, lines, argv)
+            r = one(variant, [], argv)
+            run.case(("mixed-flow", variant, name), nontrivial=True)
+            run.count("mixed conf + option workflows", section="oracle")
+            run.count("command: %s mixed %s" % (variant, name))
+            if m[1] is not None or r[1] is not None or m[0] != r[0]:
+                if (m[1] is None) != (r[1] is None) or m[0] != r[0]:
+                    run.violation("phonopy_script.main", "option-does-not-supersede-file-tag",
+                                  "%s: `%s` with %s in the conf file ends with %r / %r, without the tag %r / %r" % (name, " ".join(m[4]), lines, m[0], m[1], r[0], r[1]),
+                                  dict(variant=variant, conf=lines, argv=m[4]))
+                continue
+            if m[2] != r[2] or m[3] != r[3]:
+                run.violation("phonopy_script.main", "option-does-not-supersede-file-tag",
+                              "%s: `%s %s` with %s in the conf file writes %s%s; with the superseded tag deleted from the file it writes %s%s" % (
+                                  name, "phonopy-load" if variant == "load" else "phonopy", " ".join(m[4]), lines, m[2], "" if m[3] is None else " (DOS pitch %g)" % m[3],
+                                  r[2], "" if r[3] is None else " (DOS pitch %g)" % r[3]),
+                              dict(variant=variant, conf=lines, argv=m[4], files_mixed=m[2], files_option_only=r[2]))
+    os.chdir(tmp)
